@@ -145,6 +145,9 @@ def check_eval(label, term, o, w, obj, r, res):
         res["nontrivial"] += 1
     if not must <= ran_set:
         return ("needed-body-did-not-run", f"missing {sorted(must - ran_set)}; ran {ran}")
+    needless = {e for e in r.needless if e[0] in LOGGED} - must
+    if ran_set & needless:
+        return ("body-of-a-member-that-cannot-be-selected-ran", f"ran {sorted(ran_set & needless)} inside a coalesce member that lacks an option (it is not selected, and the option's absence is known without running it); ran {ran}; selected path {sorted(must)}")
     if not ran_set <= may:
         return ("unselected-body-ran", f"ran {sorted(ran_set - may)} which is not on the selected path (nor in an abandoned trial); ran {ran}; selected path {sorted(must)}")
     first = {}
